@@ -12,6 +12,16 @@ BASE_NOTE = (
 
 # property -> (category, text, technique, design_ref, extra note)
 CLAIMS = {
+    "C24": (
+        "proof",
+        "Every public operation of LRUCache and ThreadSafeLRUCache (resolved through the MRO, so inherited methods are included) is verified against an abstract recency map "
+        "(present/value/rank arrays, DESIGN 3 OrderedDict model): postconditions over the whole view (exactly the LRU key evicted on overflow, all other keys/values/order kept, "
+        "listing most-to-least recent, size <= capacity, well-formedness preserved). For the thread-safe variant the lock-discipline obligations (every dict access under the lock, "
+        "no live view returned, lock released) are discharged for every public method; linearizability then follows by a stated pen-and-paper argument. Schedules are not explored.",
+        "contract-based deductive verification (abstract-view contracts + lock-ownership ghost state, z3 with quantified frame conditions)",
+        "DESIGN.md section 4 C24",
+        "The concurrent part of the quantifier (schedules) is outside this technique and is covered only by the lock-discipline proof plus assumed mutual exclusion of threading.Lock.",
+    ),
     "C13": (
         "proof",
         "Contracts on the real LoopExpression._slice (visited items == seq[from:to] per the reference slice semantics, reported length, continue index, no exception), "
